@@ -153,16 +153,43 @@ def run(ctx):
 
     def nexts(b):
         return [(bb, t) for bb, t in b.calls() if (t.get('callee') or '').endswith('Iterator::next') and 'record_fields' in origin(b, t['args'][0]).fields]
-    ctx.ob('RECORD', 'next_key/peeks', not nexts(rk), short_loc(rk.span), 'next_key_seed does not advance the field iterator: %s' % (not nexts(rk)))
+    def stores(b):
+        """the fields left kept as a slice: `let (field, rest) = self.record_fields.split_first()..; self.record_fields = rest`"""
+        out = []
+        for bb in sorted(b.live_blocks()):
+            if b.is_cleanup(bb):
+                continue
+            for s_ in b.stmts(bb):
+                pr = [e for e in s_.get('assign', {}).get('p', []) if isinstance(e, dict) and 'f' in e] if 'assign' in s_ else []
+                if pr and pr[-1].get('f') == 'record_fields':
+                    out.append((bb, s_))
+        return out
+    ctx.ob('RECORD', 'next_key/peeks', not nexts(rk) and not stores(rk), short_loc(rk.span), 'next_key_seed does not advance the field iterator: %s' % (not nexts(rk) and not stores(rk)))
     nv = nexts(rv)
-    ok = len(nv) == 1 and all(rv.dominates(nv[0][0], r) for r in rv.exits())
+    ok = len(nv) == 1 and all(rv.dominates(nv[0][0], r) for r in rv.exits()) and not stores(rv)
+    split_adv = None
+    if not nv and len(stores(rv)) == 1:
+        sbb, st = stores(rv)[0]
+        so = origin(rv, st['rv']['op']) if st['rv']['k'] == 'use' else None
+        sf = [c for c in (so.calls if so else []) if call_matches(c, ['slice::<impl [T]>::split_first']) and 'record_fields' in origin(rv, c['args'][0]).fields]
+        # (split_first() gives Option<(&T, &[T])>: the rest is element 1 of the payload, through `?`/expect/let-else)
+        ip = index_path_from_call(rv, st['rv']['op'], sf[0]) if len(sf) == 1 else None
+        via_unwrap = None
+        if len(sf) == 1 and ip is None:
+            for c in so.calls:
+                if strip_generics(cname(c)).endswith(('Option::expect', 'Option::unwrap', 'Try::branch')) or 'expect' in cname(c):
+                    via_unwrap = index_path_from_call(rv, st['rv']['op'], c)
+        if ip in ([0, 1], [1]) or via_unwrap in ([1], [0, 1]):
+            split_adv = sf[0]
+            ok = all(rv.dominates(sbb, r) for r in rv.exits())
     ctx.ob('RECORD', 'next_value/advances-once', ok, short_loc(rv.span), 'next_value_seed advances the field iterator exactly once on every path: %s' % ok)
     # the value deserializer's node is that field's schema
     for bb in sorted(rv.live_blocks()):
         for s in rv.stmts(bb):
             if 'assign' in s and s['rv']['k'] == 'agg' and s['rv'].get('adt') == DD:
                 o = origin(rv, s['rv']['ops'][s['rv']['fields'].index('schema_node')])
-                okn = 'schema' in o.fields and any((c.get('callee') or '').endswith('Iterator::next') for c in o.calls)
+                okn = 'schema' in o.fields and (any((c.get('callee') or '').endswith('Iterator::next') for c in o.calls) or
+                                                (split_adv is not None and any(c is split_adv for c in o.calls)))
                 ctx.ob('RECORD', 'next_value/node-is-that-fields-schema', okn, short_loc(s.get('span')), 'node derives from %s' % o.describe())
     # Ok(None) (no more keys) only when first() found nothing left
     nones = []
